@@ -370,6 +370,12 @@ MUTANTS = [
      "edits": [(SU, "        return schema.__class__(schema.props.update(value=value))\n\n    def visit_int", "        return schema.__class__(schema.props if schema.props.value is not Nil else schema.props.update(value=value))\n\n    def visit_int")]},
     {"name": "given keys keep is_optional", "rule": "DICT-TABLE",
      "edits": [(SU, "                        keys[key] = (val.__accept__(self, value=value[key], **kwargs), False)", "                        keys[key] = (val.__accept__(self, value=value[key], **kwargs), is_optional)")]},
+    {"name": "typed-list members memoised by the bare value", "rule": "LIST-COVER",
+     "edits": [(SU, "            elements = []\n            for val in value:\n                if is_ellipsis(val):\n                    element = val\n                else:\n                    element = schema.props.type.__accept__(self, value=val, **kwargs)\n                elements.append(element)",
+                "            elements = []\n            seen: Dict[Any, Any] = {}\n            for val in value:\n                if is_ellipsis(val):\n                    element = val\n                else:\n                    if val not in seen:\n                        seen[val] = schema.props.type.__accept__(self, value=val, **kwargs)\n                    element = seen[val]\n                elements.append(element)")]},
+    {"name": "generator falls through to a drawn length for an empty pinned list", "rule": "LIST-GEN",
+     "edits": [("d42/generation/_generator.py", "                elements.append(elem.__accept__(self, **kwargs))\n            return elements\n",
+                "                elements.append(elem.__accept__(self, **kwargs))\n            if elements or (schema.props.len is Nil and schema.props.min_len is Nil and schema.props.max_len is Nil):\n                return elements\n")]},
     {"name": "prefix loop dropped in _substitute_elements", "rule": "LIST-COVER",
      "edits": [(SU, "        for i in range(start):\n            substituted.insert(i, self._from_native(value[i]))\n\n", "")]},
     {"name": "empty-any guard removed", "rule": "ANY-NONEMPTY",
